@@ -17,6 +17,226 @@ func checkC14(c *Ctx) {
 	c14LinformSSA(c)
 	c14EOFRule(c)
 	c14BufferSame(c, "buffer.same")
+	c14RangeScanner(c)
+	c14RangeTracks(c)
+}
+
+// range.tracks: a parser loop that accumulates items in a slice and tracks the source range of the
+// last item in a variable of type hcl.Range updates the tracker on every iteration path that
+// appends an item.
+func c14RangeTracks(c *Ctx) {
+	c.Rule("range.tracks: in hclsyntax, in every loop whose header carries both a slice that is extended by append in the loop and a variable of type hcl.Range that is reassigned in the loop (the range of the last item consumed, later used as the end of RangeBetween), each path round the loop that extends the slice also reassigns the range variable: the node range covers every item that was appended")
+	n := 0
+	for _, fn := range c.P.pkgFuncs("hclsyntax") {
+		for _, b := range fn.Blocks {
+			var slices, ranges []*ssa.Phi
+			for _, ins := range b.Instrs {
+				ph, ok := ins.(*ssa.Phi)
+				if !ok {
+					break
+				}
+				if _, isSlice := ph.Type().Underlying().(*types.Slice); isSlice && !isNamed(ph.Type(), modPath, "Diagnostics") {
+					slices = append(slices, ph)
+				}
+				if isNamed(ph.Type(), modPath, "Range") {
+					ranges = append(ranges, ph)
+				}
+			}
+			if len(slices) == 0 || len(ranges) == 0 {
+				continue
+			}
+			// back edges: predecessors dominated by this header
+			var back []int
+			for i, p := range b.Preds {
+				if b.Dominates(p) {
+					back = append(back, i)
+				}
+			}
+			if len(back) == 0 {
+				continue
+			}
+			appended := func(ph *ssa.Phi, i int) bool {
+				// the edge value is an append (possibly through inner phis) that extends ph
+				seen := map[ssa.Value]bool{}
+				var walk func(v ssa.Value, d int) bool
+				walk = func(v ssa.Value, d int) bool {
+					if v == nil || seen[v] || d > 8 || v == ssa.Value(ph) {
+						return false
+					}
+					seen[v] = true
+					switch x := v.(type) {
+					case *ssa.Call:
+						if bt, ok := x.Call.Value.(*ssa.Builtin); ok && bt.Name() == "append" {
+							return true
+						}
+					case *ssa.Phi:
+						for _, e := range x.Edges {
+							if walk(e, d+1) {
+								return true
+							}
+						}
+					}
+					return false
+				}
+				return walk(ph.Edges[i], 0)
+			}
+			for _, sl := range slices {
+				for _, rg := range ranges {
+					// the pair is tracked together if some back edge changes both
+					together := false
+					for _, i := range back {
+						if appended(sl, i) && rg.Edges[i] != ssa.Value(rg) {
+							together = true
+						}
+					}
+					if !together {
+						continue
+					}
+					for _, i := range back {
+						if !appended(sl, i) {
+							continue
+						}
+						n++
+						c.Sites++
+						c.Fn(FuncName(fn))
+						pos := b.Preds[i].Instrs[len(b.Preds[i].Instrs)-1].Pos()
+						if pos == token.NoPos {
+							pos = sl.Edges[i].Pos()
+						}
+						key := fmt.Sprintf("%s:loop[%s,%s]", FuncName(fn), sl.Comment, rg.Comment)
+						c.Check(rg.Edges[i] != ssa.Value(rg), "range.tracks", key, pos, "the range of the last item is updated with the item",
+							"a path round the loop appends to `"+sl.Comment+"` without updating `"+rg.Comment+"`: the node's source range (RangeBetween(first, "+rg.Comment+")) stops before the last item, so slicing the source by the range does not give the expression back")
+					}
+				}
+			}
+		}
+	}
+	c.Floor("range.tracks paths", n, 2, "the attribute-only splat traversal loop")
+}
+
+// scanner.snapshot: in RangeScanner.Scan the running position `new` is advanced per grapheme
+// cluster (byte, column, and line/column on a newline) and copied into `end` while the token is
+// not yet exhausted. The copy must be of the fully advanced position: within one iteration no
+// field of the running position is written after it has been copied.
+func c14RangeScanner(c *Ctx) {
+	c.Rule("scanner.snapshot: in hcl.RangeScanner.Scan, the position cell that becomes sc.pos (the running position) is copied into the cell that becomes Range.End only after every update of the running position in that loop iteration (no store to a field of the running position is reachable from the copy without passing the loop header), and both cells start as copies of sc.pos")
+	fn := c.P.LookupFunc("", "RangeScanner.Scan")
+	if fn == nil {
+		c.CheckerFail("scanner.snapshot", "anchor hcl.RangeScanner.Scan does not resolve")
+		return
+	}
+	c.Fn(FuncName(fn))
+	// cells of type hcl.Pos
+	var cells []*ssa.Alloc
+	for _, b := range fn.Blocks {
+		for _, ins := range b.Instrs {
+			if al, ok := ins.(*ssa.Alloc); ok && isNamed(al.Type().(*types.Pointer).Elem(), modPath, "Pos") {
+				cells = append(cells, al)
+			}
+		}
+	}
+	cellOf := func(v ssa.Value) *ssa.Alloc {
+		if u, ok := v.(*ssa.UnOp); ok && u.Op == token.MUL {
+			if al, ok := u.X.(*ssa.Alloc); ok {
+				return al
+			}
+		}
+		return nil
+	}
+	// running: the cell whose content is stored into the receiver's pos field
+	var running *ssa.Alloc
+	for _, b := range fn.Blocks {
+		for _, ins := range b.Instrs {
+			st, ok := ins.(*ssa.Store)
+			if !ok {
+				continue
+			}
+			if fa, ok := st.Addr.(*ssa.FieldAddr); ok {
+				if fv := fieldVarOf(fa.X.Type(), fa.Field); fv != nil && fv.Name() == "pos" {
+					if al := cellOf(st.Val); al != nil {
+						running = al
+					}
+				}
+			}
+		}
+	}
+	if running == nil {
+		c.Undecided("scanner.snapshot", FuncName(fn)+":running", fn.Pos(), "the cell stored into sc.pos is not recognised")
+		return
+	}
+	n := 0
+	for _, scc := range sccBlocks(fn.Blocks, nil) {
+		if len(scc) < 2 {
+			continue
+		}
+		in := map[*ssa.BasicBlock]bool{}
+		for _, b := range scc {
+			in[b] = true
+		}
+		var header *ssa.BasicBlock
+		for _, b := range scc {
+			for _, p := range b.Preds {
+				if !in[p] {
+					header = b
+				}
+			}
+		}
+		writesRunning := func(ins ssa.Instruction) bool {
+			st, ok := ins.(*ssa.Store)
+			if !ok {
+				return false
+			}
+			if st.Addr == ssa.Value(running) {
+				return true
+			}
+			fa, ok := st.Addr.(*ssa.FieldAddr)
+			return ok && fa.X == ssa.Value(running)
+		}
+		for _, b := range scc {
+			for i, ins := range b.Instrs {
+				ld, ok := ins.(*ssa.UnOp)
+				if !ok || ld.Op != token.MUL || ld.X != ssa.Value(running) {
+					continue
+				}
+				dstName := "end"
+				for _, r := range *ld.Referrers() {
+					if ph, ok := r.(*ssa.Phi); ok && ph.Comment != "" {
+						dstName = ph.Comment
+					}
+					if st, ok := r.(*ssa.Store); ok {
+						if al, ok := st.Addr.(*ssa.Alloc); ok {
+							dstName = al.Comment
+						}
+					}
+				}
+				n++
+				c.Sites++
+				// anything written to the running position later in this iteration?
+				late := token.NoPos
+				seen := map[*ssa.BasicBlock]bool{}
+				var walk func(bb *ssa.BasicBlock, from int)
+				walk = func(bb *ssa.BasicBlock, from int) {
+					for _, x := range bb.Instrs[from:] {
+						if writesRunning(x) && late == token.NoPos {
+							late = x.Pos()
+						}
+					}
+					for _, s2 := range bb.Succs {
+						if !in[s2] || s2 == header || seen[s2] {
+							continue
+						}
+						seen[s2] = true
+						walk(s2, 0)
+					}
+				}
+				walk(b, i+1)
+				c.Check(late == token.NoPos, "scanner.snapshot", FuncName(fn)+":copy["+dstName+"<-"+running.Comment+"]", ld.Pos(), "copied after the last update of the iteration",
+					"the running position is copied into `"+dstName+"` before it has been fully advanced for this grapheme cluster (it is written again at "+c.P.Position(late)+"): the reported end of a token that ends in a newline has the column/line of the position before the newline was counted")
+			}
+		}
+	}
+	c.Floor("scanner.snapshot copies", n, 1, "end = new in the grapheme loop")
+	_ = cells
 }
 
 func c14EOF(c *Ctx) {
